@@ -1,6 +1,7 @@
 (* C09 -- a << b stacks rows and unions columns.  Statements only. *)
 From Coq Require Import ZArith NArith List Bool String.
 From DM Require Import Base.PyVal Spec.Nf Spec.Table Spec.Ops Proofs.TableFacts Proofs.OpFacts.
+From DM Require Import Spec.SeriesEnc Proofs.SeriesEncFacts.
 Import ListNotations.
 Open Scope string_scope.
 
@@ -46,4 +47,18 @@ Example C09_example :
 Proof. vm_compute. repeat split. Qed.
 Example C09_type_mismatch :
   snd (step (run [ONew 1; OSetColKind 0 "x" KFloat; ONew 1; OSetColKind 1 "x" KInt] w0) (OConcat 0 1)) = Err TypeError.
+Proof. vm_compute. reflexivity. Qed.
+
+(* Series columns of different depth (Spec/SeriesEnc.v): the union of the pseudo-columns with NaN defaults IS the
+   padding with NaN to the larger depth; the operands keep their depths (frame) *)
+Example C09_series_depth_padding :
+  match nth_error (pool (srun [SPlain (ONew 1); SNew 0 "s" 1 0; SSet 0 "s" 1 (AInt 0) (SVScalar (PInt 1));
+                               SPlain (ONew 2); SNew 1 "s" 3 0; SSet 1 "s" 3 (ASlice None None) (SVSeries [PInt 2; PInt 3; PInt 4]);
+                               SPlain (OConcat 0 1)] w0)) 2 with
+  | Some t => map (fun '(n, _, c) => (n, c)) (view t) =
+              [("s#0", [VFlt (FFin false 1 0); VFlt (FFin false 1 1); VFlt (FFin false 1 1)]);
+               ("s#1", [VFlt FNan; VFlt (FFin false 3 0); VFlt (FFin false 3 0)]);
+               ("s#2", [VFlt FNan; VFlt (FFin false 1 2); VFlt (FFin false 1 2)])]
+  | None => False
+  end.
 Proof. vm_compute. reflexivity. Qed.
